@@ -13,7 +13,10 @@ FLAVOURS = {
     "probe": ["g++", "-std=c++11", "-O2", "-shared", "-fPIC", "-DSTRENGTHS_VERIF"],
     "san": ["clang++", "-std=c++11", "-O1", "-g", "-fno-omit-frame-pointer",
             "-fsanitize=address,undefined", "-fno-sanitize-recover=undefined",
-            "-shared-libasan", "-D_GLIBCXX_ASSERTIONS", "-shared", "-fPIC"],
+            "-shared-libasan", "-shared", "-fPIC"],
+    "sanassert": ["clang++", "-std=c++11", "-O1", "-g", "-fno-omit-frame-pointer",
+                  "-fsanitize=address,undefined", "-fno-sanitize-recover=undefined",
+                  "-shared-libasan", "-D_GLIBCXX_ASSERTIONS", "-shared", "-fPIC"],
 }
 
 _built = {}
